@@ -14,6 +14,9 @@ from .report import Finding
 
 VERIF = os.path.dirname(os.path.dirname(os.path.abspath(__file__)))
 VEC = ('DVector', 'UIVector', 'IVector')
+# constructors that deliberately return a skeleton whose blocks are NULL until created one by one; the destructor is
+# separately required to tolerate that state (strict.py scenario 'skeleton')
+SKELETON_CONSTRUCTORS = {'NewTensor': 'blocks are created afterwards with NewTensorMatrix'}
 
 
 def rel(p):
@@ -85,6 +88,49 @@ class Checker:
                 ct = ctype_of(kids(s)[0])
         return p, ct
 
+    def slot_must_be_valid(self, eng, node, arg, st, who):
+        """Del*(&T->m[k]): the slot must hold an object"""
+        x = strip(arg)
+        if x.get('kind') == 'UnaryOperator' and x.get('opcode') == '&':
+            x = strip(kids(x)[0])
+        if x.get('kind') == 'ArraySubscriptExpr':
+            b = strip(kids(x)[0])
+            if b.get('kind') == 'MemberExpr' and b.get('name') in ('m', 'd'):
+                cont = kids(b)[0]
+                ct = ctype_of(cont) if b.get('isArrow') else eng._lv_ctype(cont)
+                p = eng.cpath(cont, st) if b.get('isArrow') else eng.cpath_lv(cont, st)
+                if ct in ('tensor', 'dvectorlist') and p:
+                    idx = eng.ev(kids(x)[1], st)
+                    sh = eng.shape(st, p, ct)
+                    if (p, repr(idx)) in st.iter_slots:
+                        return
+                    facts = st.facts + eng.pre
+                    for lo, hi in sh.slots:
+                        if prove_nonneg(idx - lo, facts, equalities=st.eqs) and prove_nonneg(hi - idx - 1, facts, equalities=st.eqs):
+                            return
+                    if not st.lossy:
+                        w = find_witness(sh.ext - idx - 1, facts + [idx], dom=eng.dom, opaque=lambda a_: a_.startswith('?'))
+                        if isinstance(w, dict) and not sh.slots:
+                            eng.flag(node, 'unassigned-slot', '%s is applied to slot %s of %s, which may hold no object (NULL / never created)'
+                                     % (who, idx, p), st, w)
+
+    def mark_slot(self, eng, arg, st):
+        """&T->m[k] / &L->d[k] handed to New*/init*: slot k of the pointer array now holds a valid object"""
+        x = strip(arg)
+        if x.get('kind') == 'UnaryOperator' and x.get('opcode') == '&':
+            x = strip(kids(x)[0])
+        if x.get('kind') == 'ArraySubscriptExpr':
+            b = strip(kids(x)[0])
+            if b.get('kind') == 'MemberExpr' and b.get('name') in ('m', 'd'):
+                cont = kids(b)[0]
+                ct = ctype_of(cont) if b.get('isArrow') else eng._lv_ctype(cont)
+                p = eng.cpath(cont, st) if b.get('isArrow') else eng.cpath_lv(cont, st)
+                if ct in ('tensor', 'dvectorlist') and p:
+                    idx = eng.ev(kids(x)[1], st)
+                    sh = eng.shape(st, p, ct)
+                    sh.slots = sh.slots + [(idx, idx + 1)]
+                    st.iter_slots[(p, repr(idx))] = True
+
     def set_matrix(self, eng, st, p, r, c):
         sh = Shape('matrix')
         sh.f = {'row': r, 'col': c}
@@ -114,6 +160,10 @@ class Checker:
             ct = {'Matrix': 'matrix', 'DVector': 'dvector', 'UIVector': 'uivector', 'IVector': 'ivector',
                   'StrVector': 'strvector', 'Tensor': 'tensor', 'DVectorList': 'dvectorlist'}[what]
             if kind == 'Del':
+                self.slot_must_be_valid(eng, node, a[0], st, cn)
+            else:
+                self.mark_slot(eng, a[0], st)
+            if kind == 'Del':
                 sh = eng.shape(st, p, ct)
                 if sh.freed is True:
                     eng.flag(node, 'double-free', '%s is deleted twice' % p, st)
@@ -127,12 +177,20 @@ class Checker:
                 self.set_matrix(eng, st, p, r, c)
                 if kind == 'init':
                     st.shapes[p].rows = []
-            elif what in ('Tensor', 'DVectorList'):
+            elif what == 'DVectorList':
                 n = ev(a[1]) if kind == 'New' else Poly.const(0)
                 sh = Shape(ct)
-                sh.f = {CONTAINER[ct][0]: n}
+                sh.f = {'size': n}
                 sh.ext = n
-                sh.slots = []           # New* leaves every slot unassigned
+                sh.slots = [(Poly.const(0), n)]      # NewDVectorList fills its slots with empty vectors
+                st.shapes[p] = sh
+            elif what == 'Tensor':
+                n = ev(a[1]) if kind == 'New' else Poly.const(0)
+                sh = Shape(ct)
+                sh.f = {'order': n}
+                sh.ext = n
+                sh.slots = []           # NewTensor is a skeleton constructor: every block is NULL until NewTensorMatrix
+                sh.nullslots = True
                 st.shapes[p] = sh
             else:
                 n = ev(a[1]) if kind == 'New' else Poly.const(0)
@@ -262,18 +320,103 @@ class Checker:
                     sub['$%d' % i] = eng.ev(arg, st)
             for ps in ctr.get('pre', []):
                 for poly in parse_pre(ps):
-                    inst = poly.subst(sub)
-                    if any(x.startswith('$') and x not in eng.pindex and not re.match(r'\$\d+(->|$)', x) for x in inst.atoms()):
+                    if any(x not in sub for x in poly.atoms()):
                         continue
+                    inst = poly.subst(sub)
                     eng.oblige(node, 'contract:%s:%s' % (cn, ps), Poly.const(0), inst + 1, st,
                                text='%s requires %s' % (cn, ps))
-        # ---- effect of a callee without transformer: havoc the shape fields it may write
+        # ---- effect of a callee without transformer: its own derived post-shape, else havoc what it may write
+        mod = set()
         for shp in self.summ.shape_mod(g):
             mm = re.match(r'^\(?\*?\$(\d+)\)?->(\w+)$', shp)
             if mm and int(mm.group(1)) < len(a):
-                p, ct = self.carg(eng, a[int(mm.group(1))], st)
-                if p and ct and mm.group(2) in CONTAINER[ct]:
-                    eng.havoc_shape(st, p, ct, 'call%s' % (fe.begin(node) or {}).get('offset'))
+                mod.add(int(mm.group(1)))
+        if not mod:
+            return
+        summ = self.auto_summary(g)
+        sub = None
+        for j in sorted(mod):
+            p, ct = self.carg(eng, a[j], st)
+            if not (p and ct):
+                continue
+            post = (summ or {}).get(j)
+            tag = 'call%s' % (fe.begin(node) or {}).get('offset')
+            if post is None:
+                eng.havoc_shape(st, p, ct, tag)
+                continue
+            if sub is None:
+                sub = {}
+                for i, arg in enumerate(a):
+                    cti = ctype_of(arg)
+                    if cti is None:
+                        s_ = strip(arg)
+                        if s_.get('kind') == 'UnaryOperator' and s_.get('opcode') == '&':
+                            cti = ctype_of(kids(s_)[0])
+                    if cti:
+                        pi, _ = self.carg(eng, arg, st)
+                        if pi:
+                            shi = eng.shape(st, pi, cti)
+                            for fld in CONTAINER[cti]:
+                                sub['$%d->%s' % (i, fld)] = shi.f[fld]
+                                sub['(*$%d)->%s' % (i, fld)] = shi.f[fld]
+                    elif not fe.is_float_type(strip(arg, casts=False)) and '*' not in fe.qual(strip(arg, casts=False)):
+                        sub['$%d' % i] = eng.ev(arg, st)
+            vals = {}
+            okk = True
+            for fld, poly in post.items():
+                if any(x not in sub for x in poly.atoms()):
+                    okk = False
+                    break
+                vals[fld] = poly.subst(sub)
+            if not okk:
+                eng.havoc_shape(st, p, ct, tag)
+                continue
+            if ct == 'matrix':
+                self.set_matrix(eng, st, p, vals['row'], vals['col'])
+            elif ct in ('dvector', 'uivector', 'ivector', 'strvector'):
+                self.set_vec(eng, st, p, ct, vals['size'])
+            else:
+                eng.havoc_shape(st, p, ct, tag)
+
+    def auto_summary(self, g):
+        """{param index: {field: Poly over g's positional atoms}} when every exit of g agrees and is exact"""
+        if not hasattr(self, '_auto'):
+            self._auto = {}
+            self._auto_active = set()
+        if g.name in self._auto:
+            return self._auto[g.name]
+        if g.name in self._auto_active:
+            return None
+        self._auto_active.add(g.name)
+        out = None
+        try:
+            eng = self.engines.get(g.name) or Engine(self, g, pre=sum((parse_pre(x) for x in self.contracts.get(g.name, {}).get('pre', [])), []), dom=self.dom).run()
+            out = {}
+            for j, prm in enumerate(g.params):
+                t = (prm.get('type') or {}).get('qualType', '')
+                base = t.replace('*', '').replace('const', '').strip()
+                if base not in CONTAINER:
+                    continue
+                path = '$%d' % j if t.count('*') == 1 else '(*$%d)' % j
+                res = None
+                for st in eng.exit_states:
+                    sh = st.shapes.get(path)
+                    cur = {f: (sh.f[f].subst(st.eqs) if sh else Poly.atom('%s->%s' % (path, f))) for f in CONTAINER[base]}
+                    if st.lossy or st.overflow or any(x.startswith('?') or '@' in x for v in cur.values() for x in v.atoms()):
+                        res = False
+                        break
+                    if res is None:
+                        res = cur
+                    elif any(repr(res[f]) != repr(cur[f]) for f in cur):
+                        res = False
+                        break
+                if res:
+                    out[j] = res
+        except fe.AnalysisBroken:
+            out = None
+        self._auto_active.discard(g.name)
+        self._auto[g.name] = out
+        return out
 
     def need_slots(self, eng, node, p, sh, st, who):
         first = CONTAINER[sh.ctype][0]
@@ -370,14 +513,16 @@ class Checker:
         return res
 
     # ---- analysis entry points ----------------------------------------------------------
-    def analyse(self, f, pre_strings=None):
+    def analyse(self, f, pre_strings=None, entry=None, register=True):
         pre = []
         for s in (pre_strings or []):
             pre += parse_pre(s)
         eng = Engine(self, f, pre=pre, dom=self.dom)
         flow.check_supported(f.body, f.name)
+        eng.entry_tweak = entry
         eng.run()
-        self.engines[f.name] = eng
+        if register:
+            self.engines[f.name] = eng
         return eng
 
     def post_invariant(self, eng):
@@ -439,9 +584,12 @@ class Checker:
                                 progress = True
                                 break
                     if not prove_nonneg(cover - n, facts, equalities=st.eqs):
+                        if sh.nullslots and f.name in SKELETON_CONSTRUCTORS:
+                            continue
                         w = find_witness(n - cover - 1, facts, dom=eng.dom, opaque=lambda a: a.startswith('?'))
                         if isinstance(w, dict):
-                            res.append((p, 'at exit slots [%s,%s) of %s are never assigned (dangling pointers)' % (cover, n, path), w))
+                            res.append((p, 'at exit slots [%s,%s) of %s %s' % (cover, n, path,
+                                        'are NULL (no object)' if sh.nullslots else 'are never assigned (dangling pointers)'), w))
         # de-duplicate
         seen, out = set(), []
         for p, msg, w in res:
